@@ -619,6 +619,19 @@ def run_c03(ctx, g):
             mid = dict(pc, midsigs=[[36, 2, 4]] if k % 4 < 2 else [[120, 5, 4]])
             for cuts in ([96], [168], [96, 168]):
                 cases.append((len(cases), cfgs[k % len(cfgs)], mid, cuts, "split"))
+        # ... and four plain 4/4 bars with one mid-bar message: the later chunks carry no signature message of their own
+        import itertools as _it
+        for k, pc in enumerate(g["pieces"]):
+            if k % (4 if ctx.thorough else 16) or not any(pc["tracks"]):
+                continue
+            four = {"tracks": [[dict(n, s=n["s"] + 96 * (j % 3), e=n["e"] + 96 * (j % 3)) for j, n in enumerate(tr) if n["e"] <= 192 - 96 * 0]
+                               for tr in pc["tracks"]], "sigs": [[0, 4, 4]] if k % 2 else [], "end": 384, "cap": True, "bars": True,
+                    "midsigs": [[48, 3, 4]] if k % 3 else [[120, 2, 4]]}
+            if any(n["s"] < b < n["e"] for tr in four["tracks"] for n in tr for b in (96, 192, 288)):
+                continue
+            for r in (1, 2, 3):
+                for cuts in _it.combinations((96, 192, 288), r):
+                    cases.append((len(cases), cfgs[k % len(cfgs)], four, list(cuts), "split"))
         # a configuration in which a velocity-bin value (24 with 8 bins) coincides with a note value: running values
         # carried under a wrong key only show then.  The model's pieces with quiet first notes, every partition.
         collide = dict(cfgs[0], nbins=8, running=True, fuseVal=False, fuseVel=False, fuseTrk=True)
